@@ -336,10 +336,13 @@ func uniq(a []string) []string {
 
 func crosses(bounds []int64, a, b int64) bool {
 	for _, e := range bounds {
-		if e <= 0 {
+		if e == 0 {
 			continue
 		}
 		sa, sb := a >= e || a < 0, b >= e || b < 0
+		if e < 0 { // disabled at every height, but on without height context
+			sa, sb = a < 0, b < 0
+		}
 		if sa != sb {
 			return true
 		}
